@@ -663,4 +663,374 @@ Section Steps.
       + rewrite H5. reflexivity.
       + destruct (lift_graph (b_contra (ml_ext m4)) _) as [ec' o]. cbn [snd] in *. subst o. reflexivity.
   Qed.
+
+  (** ** LNL spread *)
+  Definition vLi : list val := map (fun k : path => lv (lpre m "ipsi" ++ k)) (LK m).
+  Definition vLc : list val := map (fun k : path => lv (lpre m "contra" ++ k)) (LK m).
+  Definition put_leaf (qL : list Qc) (mk : midline) (l : leaf_id) : midline :=
+    match ml_leaf mk l with Some u => ml_with_leaf mk l (u_put_sel L u qL) | None => mk end.
+
+  Lemma St_leaf mk l u : St m mk -> ml_leaf mk l = Some u -> like_ei m u.
+  Proof.
+    intros HS. pose proof (St_ext m Hok mk HS) as (_ & Hei & Hec & _). pose proof (St_noext m Hok mk HS) as (_ & Hni & Hnc & _).
+    destruct l; cbn [ml_leaf].
+    - destruct (ml_central mk) as [c|] eqn:Ec; cbn [option_map]; [|discriminate]. intros [= <-].
+      destruct (St_central m Hok mk c HS Ec) as (c0 & _ & (_ & H & _)). exact H.
+    - destruct (ml_central mk) as [c|] eqn:Ec; cbn [option_map]; [|discriminate]. intros [= <-].
+      destruct (St_central m Hok mk c HS Ec) as (c0 & _ & (_ & _ & H & _)). exact H.
+    - intros [= <-]. exact Hei.
+    - intros [= <-]. exact Hec.
+    - intros [= <-]. exact Hni.
+    - intros [= <-]. exact Hnc.
+  Qed.
+
+  Lemma block_kw kwL (f : path -> val) : (forall k, In k (LK m) -> u_lk kwL k = Some (f k)) ->
+    forall ls mk, St m mk ->
+    match all_unit (map f (LK m)) with
+    | Some qL => m_set_lnl_block mk ls [] kwL = (fold_left (put_leaf qL) ls mk, Some [])
+    | None => (exists l, In l ls /\ ml_leaf mk l <> None) -> snd (m_set_lnl_block mk ls [] kwL) = None
+    end.
+  Proof.
+    intros Hlk. destruct (all_unit (map f (LK m))) as [qL|] eqn:EL.
+    - induction ls as [|l r IH]; intros mk HS; [reflexivity|]. cbn [m_set_lnl_block fold_left]. unfold put_leaf at 2.
+      destruct (ml_leaf mk l) as [u|] eqn:El; [|apply IH, HS].
+      pose proof (St_leaf mk l u HS El) as Hu.
+      pose proof (leaf_set_kw L u kwL (LK m) f (like_ok _ Hu) (like_L _ Hu) Hlk) as H1. rewrite EL in H1.
+      unfold u_set_lnl_spread_params. rewrite H1.
+      assert (HS' : St m (ml_with_leaf mk l (u_put_sel L u qL))).
+      { unfold St. rewrite (sk_mid_with_leaf mk l (u_put_sel L u qL) u El); [exact HS|].
+        pose proof (sk_uni_graph_set L u [] kwL) as Hsk. rewrite H1 in Hsk. exact Hsk. }
+      destruct r as [|l2 r2]; [reflexivity|]. apply IH, HS'.
+    - induction ls as [|l r IH]; intros mk HS (l0 & Hin & Hex); [destruct Hin|]. cbn [m_set_lnl_block].
+      destruct (ml_leaf mk l) as [u|] eqn:El.
+      + pose proof (St_leaf mk l u HS El) as Hu.
+        pose proof (leaf_set_kw L u kwL (LK m) f (like_ok _ Hu) (like_L _ Hu) Hlk) as H1. rewrite EL in H1.
+        unfold u_set_lnl_spread_params. destruct (lift_graph u _) as [u' o]. cbn [snd] in H1. subst o. reflexivity.
+      + apply IH; [exact HS|]. destruct Hin as [<-|Hin]; [contradiction|]. exists l0. split; assumption.
+  Qed.
+
+  Definition lnl_vals : option (list Qc * list Qc) :=
+    match all_unit vLi, all_unit vLc with Some qLi, Some qLc => Some (qLi, qLc) | _, _ => None end.
+  Definition lnl_fin (mk : midline) (qLi qLc : list Qc) : midline :=
+    if ml_symL m then fold_left (put_leaf qLi) [LCentralIpsi; LCentralContra; LExtIpsi; LExtContra; LNoextIpsi; LNoextContra] mk
+    else fold_left (put_leaf qLc) [LCentralContra; LExtContra; LNoextContra]
+           (fold_left (put_leaf qLi) [LCentralIpsi; LExtIpsi; LNoextIpsi] mk).
+
+  Lemma fold_put_leaf_St qL ls : forall mk, St m mk -> St m (fold_left (put_leaf qL) ls mk).
+  Proof.
+    induction ls as [|l r IH]; intros mk HS; [exact HS|]. cbn [fold_left]. apply IH. unfold put_leaf.
+    destruct (ml_leaf mk l) as [u|] eqn:El; [|exact HS]. unfold St.
+    rewrite (sk_mid_with_leaf mk l (u_put_sel L u qL) u El); [exact HS|].
+    pose proof (St_leaf mk l u HS El) as Hu.
+    (* u_put_sel is what the setter returns on some keyword assignment, e.g. on its own values; simpler: by shape *)
+    apply sk_uni_eq; try reflexivity. cbn [u_edges u_put_sel u_with_graph u_graph with_edges g_edges].
+    clear. unfold u_edges. generalize (g_edges (u_graph u)) as es. intros es. revert qL.
+    induction es as [|e es IHe]; intros qL; [reflexivity|]. cbn [edges_put]. destruct (sel_lnl e).
+    - cbn [map]. rewrite IHe. f_equal.
+      pose proof (edge_params_length_pos (u_tri u) e) as Hlen.
+      destruct (firstn (length (edge_params (u_tri u) e)) qL) as [|s [|mm [|? ?]]] eqn:Ef; cbn [edge_put]; try reflexivity.
+      assert (Hl2 : length (edge_params (u_tri u) e) = 2).
+      { apply (f_equal (@length _)) in Ef. rewrite firstn_length in Ef. cbn in Ef. lia. }
+      rewrite edge_params_cases in Hl2. destruct (is_growth e); [discriminate|]. destruct (has_micro (u_tri u) e) eqn:Em; [|discriminate].
+      rewrite sk_edge_with_micro by (rewrite has_micro_with_spread; exact Em). apply sk_edge_with_spread.
+    - cbn [map]. rewrite IHe. reflexivity.
+  Qed.
+
+  Lemma step_lnl mk : St m mk ->
+    match lnl_vals with
+    | Some (qLi, qLc) => m_set_lnl_spread_params mk [] kw = (lnl_fin mk qLi qLc, Some [])
+    | None => snd (m_set_lnl_spread_params mk [] kw) = None
+    end.
+  Proof.
+    intros HS. unfold m_set_lnl_spread_params. destruct (unflatten_and_split kw ["ipsi"; "noext"; "ext"; "contra"]) as [split glob] eqn:Hu.
+    change ["ipsi"; "noext"; "ext"; "contra"] with X4 in Hu.
+    rewrite (St_symL m mk HS). unfold lnl_vals, lnl_fin, vLi, vLc, lpre. destruct (ml_symL m) eqn:EsL.
+    - (* symmetric: every leaf receives the global keywords *)
+      assert (Hlk : forall k, In k (LK m) -> u_lk glob k = Some (lv ([] ++ k))).
+      { intros k Hk. destruct (LK_form m k Hk) as (n & s & -> & Hn).
+        apply (lk_glob m v Hok Hnd Hl split glob Hu n [s] Hn).
+        pose proof (M_lnl m "ipsi" [n; s] Hok (or_introl eq_refl) Hk) as HM. unfold lpre in HM. rewrite EsL in HM. exact HM. }
+      pose proof (block_kw glob (fun k => lv ([] ++ k)) Hlk
+                    [LCentralIpsi; LCentralContra; LExtIpsi; LExtContra; LNoextIpsi; LNoextContra] mk HS) as HB.
+      destruct (all_unit (map (fun k : path => lv ([] ++ k)) (LK m))) as [qL|]; [exact HB|].
+      apply HB. exists LExtIpsi. split; [cbn; tauto | discriminate].
+    - (* asymmetric: the ipsilateral leaves, then the contralateral ones *)
+      assert (HlkI : forall k, In k (LK m) -> u_lk (obj_kwargs "ipsi" split glob) k = Some (lv (["ipsi"] ++ k))).
+      { intros k Hk. destruct (LK_form m k Hk) as (n & s & -> & Hn).
+        apply (lk_side m v Hnd Hl split glob Hu "ipsi" n [s]); [left; reflexivity|].
+        pose proof (M_lnl m "ipsi" [n; s] Hok (or_introl eq_refl) Hk) as HM. unfold lpre in HM. rewrite EsL in HM. exact HM. }
+      assert (HlkC : forall k, In k (LK m) -> u_lk (obj_kwargs "contra" split glob) k = Some (lv (["contra"] ++ k))).
+      { intros k Hk. destruct (LK_form m k Hk) as (n & s & -> & Hn).
+        apply (lk_side m v Hnd Hl split glob Hu "contra" n [s]); [right; right; right; left; reflexivity|].
+        pose proof (M_lnl m "contra" [n; s] Hok (or_intror eq_refl) Hk) as HM. unfold lpre in HM. rewrite EsL in HM. exact HM. }
+      pose proof (block_kw _ (fun k => lv (["ipsi"] ++ k)) HlkI [LCentralIpsi; LExtIpsi; LNoextIpsi] mk HS) as HB1.
+      destruct (all_unit (map (fun k : path => lv (["ipsi"] ++ k)) (LK m))) as [qLi|].
+      + rewrite HB1. cbn [andthen].
+        pose proof (fold_put_leaf_St qLi [LCentralIpsi; LExtIpsi; LNoextIpsi] mk HS) as HS1.
+        pose proof (block_kw _ (fun k => lv (["contra"] ++ k)) HlkC [LCentralContra; LExtContra; LNoextContra] _ HS1) as HB2.
+        destruct (all_unit (map (fun k : path => lv (["contra"] ++ k)) (LK m))) as [qLc|]; [exact HB2|].
+        apply HB2. exists LExtContra. split; [cbn; tauto | discriminate].
+      + assert (Hf : snd (m_set_lnl_block mk [LCentralIpsi; LExtIpsi; LNoextIpsi] [] (obj_kwargs "ipsi" split glob)) = None).
+        { apply HB1. exists LExtIpsi. split; [cbn; tauto | discriminate]. }
+        destruct (m_set_lnl_block mk _ [] (obj_kwargs "ipsi" split glob)) as [m' o]. cbn [snd] in Hf. subst o. reflexivity.
+  Qed.
 End Steps.
+
+Section Steps2.
+  Variables (m : midline) (v : list val).
+  Hypothesis Hok : m_names_ok m = true.
+  Hypothesis Hnd : NoDup (m_names m).
+  Hypothesis Hl : length v = length (m_items m).
+  Notation kw := (mkw m v).
+  Notation lv := (LV m v).
+
+  (** ** Distributions *)
+  Definition vD : list val := map lv (DK m).
+  Definition leaf_ds (u : uni) : option (list (string * dist)) := dists_put (u_maxt u) (u_dists u) vD.
+  Definition force_ds (u : uni) : list (string * dist) := match leaf_ds u with Some ds => ds | None => u_dists u end.
+  Definition bi_ds (b : bilateral) : bilateral :=
+    b_with b (u_with_dists (b_ipsi b) (force_ds (b_ipsi b))) (u_with_dists (b_contra b) (force_ds (b_contra b))).
+  Definition bi_ds_ok (b : bilateral) : bool := is_some (leaf_ds (b_ipsi b)) && is_some (leaf_ds (b_contra b)).
+  Definition dist_ok (mk : midline) : bool := forallb bi_ds_ok (m_bis mk).
+  Definition dist_fin (mk : midline) : midline :=
+    let m1 := ml_with_ext mk (bi_ds (ml_ext mk)) in
+    let m2 := ml_with_noext m1 (bi_ds (ml_noext m1)) in
+    let m3 := match ml_central m2 with Some c => ml_with_central m2 (bi_ds c) | None => m2 end in
+    match ml_unknown m3 with Some k => ml_with_unknown m3 (bi_ds k) | None => m3 end.
+
+  Lemma like_D u : like_ei m u -> map fst (u_dist_items u) = DK m.
+  Proof. intros (_ & _ & _ & H). exact H. Qed.
+
+  Lemma bi_dist_kw X split0 glob0 nm b b0 : incl X XB -> unflatten_and_split kw X = (split0, glob0) -> In nm X ->
+    bi_facts m b b0 ->
+    if bi_ds_ok b then b_set_distribution_params b [] (obj_kwargs nm split0 glob0) = (bi_ds b, Some [])
+    else snd (b_set_distribution_params b [] (obj_kwargs nm split0 glob0)) = None.
+  Proof.
+    intros HX Hu Hnm (Hb & Hi & Hc & _). set (bkw := obj_kwargs nm split0 glob0).
+    assert (Hplan : forall side u, side = "ipsi" \/ side = "contra" -> like_ei m u ->
+              plan (side_lk side bkw) (u_dist_items u) [] = vD).
+    { intros side u Hside Hu'. rewrite (plan_map _ _ _ lv); [rewrite (like_D u Hu'); reflexivity|].
+      rewrite (like_D u Hu'). intros k Hk. destruct (DK_form m k Hk) as (t & s & -> & _).
+      apply (lk_dist m v Hok Hnd Hl X split0 glob0 nm side t s HX Hu Hnm Hside Hk). }
+    pose proof (b_dist_step b [] bkw Hb) as HD.
+    rewrite (Hplan "ipsi" (b_ipsi b) (or_introl eq_refl) Hi), (Hplan "contra" (b_contra b) (or_intror eq_refl) Hc) in HD.
+    unfold bi_ds_ok, bi_ds, force_ds, leaf_ds.
+    destruct (dists_put (u_maxt (b_ipsi b)) (u_dists (b_ipsi b)) vD) as [dsi|]; cbn [is_some andb]; [|exact HD].
+    destruct (dists_put (u_maxt (b_contra b)) (u_dists (b_contra b)) vD) as [dsc|]; cbn [is_some]; [|exact HD].
+    rewrite HD, skipn_nil'. reflexivity.
+  Qed.
+
+  Lemma step_dist mk : St m mk ->
+    if dist_ok mk then m_set_distribution_params mk [] kw = (dist_fin mk, Some [])
+    else snd (m_set_distribution_params mk [] kw) = None.
+  Proof.
+    intros HS. unfold m_set_distribution_params, dist_ok, dist_fin, m_bis.
+    pose proof (St_ext m Hok mk HS) as Fe. pose proof (St_noext m Hok mk HS) as Fn.
+    destruct (ml_central mk) as [c|] eqn:Ec; destruct (ml_unknown mk) as [k|] eqn:Ek; cbn [app opt_list forallb];
+      match goal with |- context [unflatten_and_split kw ?X0] => set (X := X0) end;
+      (assert (HX : incl X XB) by (unfold X, XB; intros x Hx; cbn in *; intuition));
+      (assert (Hext : In "ext" X) by (left; reflexivity)); (assert (Hnoext : In "noext" X) by (right; left; reflexivity));
+      destruct (unflatten_and_split kw X) as [split0 glob0] eqn:Hu;
+      pose proof (bi_dist_kw X split0 glob0 "ext" (ml_ext mk) (ml_ext m) HX Hu Hext Fe) as H1;
+      (destruct (bi_ds_ok (ml_ext mk)); cbn [andb];
+        [rewrite H1 | destruct (b_set_distribution_params (ml_ext mk) [] _) as [e' o]; cbn [snd] in H1; subst o; reflexivity]);
+      cbn [ml_noext ml_with_ext ml_with_models];
+      pose proof (bi_dist_kw X split0 glob0 "noext" (ml_noext mk) (ml_noext m) HX Hu Hnoext Fn) as H2;
+      (destruct (bi_ds_ok (ml_noext mk)); cbn [andb];
+        [rewrite H2 | destruct (b_set_distribution_params (ml_noext mk) [] _) as [n' o]; cbn [snd] in H2; subst o; reflexivity]);
+      cbn [ml_central ml_unknown ml_with_noext ml_with_ext ml_with_models]; rewrite ?Ec, ?Ek.
+    - (* central and unknown *)
+      destruct (St_central m Hok mk c HS Ec) as (c0 & _ & Fc). destruct (St_unknown m Hok mk k HS Ek) as (k0 & _ & Fk).
+      pose proof (bi_dist_kw X split0 glob0 "central" c c0 HX Hu ltac:(cbn; tauto) Fc) as H3.
+      destruct (bi_ds_ok c); cbn [andb];
+        [rewrite H3 | destruct (b_set_distribution_params c [] _) as [c' o]; cbn [snd] in H3; subst o; reflexivity].
+      cbn [ml_unknown ml_with_central ml_with_noext ml_with_ext ml_with_models]. rewrite Ek.
+      pose proof (bi_dist_kw X split0 glob0 "unknown" k k0 HX Hu ltac:(cbn; tauto) Fk) as H4.
+      destruct (bi_ds_ok k); cbn [andb];
+        [rewrite H4; reflexivity | destruct (b_set_distribution_params k [] _) as [k' o]; cbn [snd] in H4; subst o; reflexivity].
+    - destruct (St_central m Hok mk c HS Ec) as (c0 & _ & Fc).
+      pose proof (bi_dist_kw X split0 glob0 "central" c c0 HX Hu ltac:(cbn; tauto) Fc) as H3.
+      destruct (bi_ds_ok c); cbn [andb];
+        [rewrite H3 | destruct (b_set_distribution_params c [] _) as [c' o]; cbn [snd] in H3; subst o; reflexivity].
+      cbn [ml_unknown ml_with_central ml_with_noext ml_with_ext ml_with_models]. rewrite Ek. reflexivity.
+    - destruct (St_unknown m Hok mk k HS Ek) as (k0 & _ & Fk).
+      cbn [ml_unknown ml_with_noext ml_with_ext ml_with_models]. rewrite Ek.
+      pose proof (bi_dist_kw X split0 glob0 "unknown" k k0 HX Hu ltac:(cbn; tauto) Fk) as H4.
+      destruct (bi_ds_ok k); cbn [andb];
+        [rewrite H4; reflexivity | destruct (b_set_distribution_params k [] _) as [k' o]; cbn [snd] in H4; subst o; reflexivity].
+    - cbn [ml_unknown ml_with_noext ml_with_ext ml_with_models]. rewrite Ek. reflexivity.
+  Qed.
+End Steps2.
+
+(** * Midline.set_params on a full keyword assignment *)
+Lemma popat_nil {A} z : popat (@nil A) z = ([], None, []).
+Proof.
+  unfold popat. cbn [length Z.of_nat]. destruct (z <? 0)%Z eqn:E1.
+  - rewrite Z.add_0_r, E1. reflexivity.
+  - rewrite E1. destruct (z >=? 0)%Z eqn:E2; [reflexivity|]. apply Z.ltb_ge in E1. rewrite Z.geb_leb in E2. apply Z.leb_gt in E2. lia.
+Qed.
+
+Section Spec.
+  Variables (m : midline) (v : list val).
+  Hypothesis Hok : m_names_ok m = true.
+  Hypothesis HN : mid_names_nodup_stmt.
+  Hypothesis Hl : length v = length (m_items m).
+  Notation kw := (mkw m v).
+  Notation lv := (LV m v).
+  Let Hnd : NoDup (m_names m) := proj2 (HN m Hok).
+
+  Definition spread_fin (q : Qc) (tv : list Qc * list Qc * list Qc * option Qc) (ls : list Qc * list Qc) : midline :=
+    let '(qTi, qTc, qTe, mixo) := tv in let '(qLi, qLc) := ls in
+    lnl_fin m (tumor_fin (ml_with_midext m q) qTi qTc qTe mixo) qLi qLc.
+  Definition spread_vals : option (Qc * (list Qc * list Qc * list Qc * option Qc) * (list Qc * list Qc)) :=
+    match check_unit (lv ["midext"; "prob"]), tumor_vals m v, lnl_vals m v with
+    | Some q, Some tv, Some ls => Some (q, tv, ls)
+    | _, _, _ => None
+    end.
+
+  Lemma m_set_full :
+    match spread_vals with
+    | Some (q, tv, ls) =>
+        if dist_ok m v (spread_fin q tv ls)
+        then m_set_params m [] kw = (dist_fin m v (spread_fin q tv ls), Some [])
+        else snd (m_set_params m [] kw) = None
+    | None => snd (m_set_params m [] kw) = None
+    end.
+  Proof.
+    unfold m_set_params, spread_vals.
+    pose proof (proj1 (HN m Hok)) as Hgot. unfold m_got in Hgot. destruct (m_get_params m true) as [ps|]; [|discriminate]. clear Hgot.
+    rewrite popat_nil.
+    assert (Hme : kw_get ["midext"; "prob"] kw = Some (lv ["midext"; "prob"])).
+    { rewrite <- (kw_last_NoDup _ kw (kw_nodup m v Hnd Hl)). apply (kw_in m v Hnd Hl). apply M_midext, Hok. }
+    rewrite Hme. destruct (check_unit (lv ["midext"; "prob"])) as [q|]; cbn [option_map]; [|reflexivity].
+    set (m0 := ml_with_midext m q). assert (HS0 : St m m0) by reflexivity.
+    cbn [app]. unfold m_set_spread_params.
+    pose proof (step_tumor m v Hok Hnd Hl m0 HS0) as HT.
+    destruct (tumor_vals m v) as [[[[qTi qTc] qTe] mixo]|]; cbn [andthen].
+    2:{ destruct (m_set_tumor_spread_params m0 [] kw) as [m' o]. cbn [snd] in HT. subst o. reflexivity. }
+    rewrite HT. cbn [andthen]. set (mT := tumor_fin m0 qTi qTc qTe mixo) in *.
+    assert (HST : St m mT).
+    { unfold St. pose proof (sk_mid_set_tumor m0 [] kw) as Hsk. rewrite HT in Hsk. exact Hsk. }
+    pose proof (step_lnl m v Hok Hnd Hl mT HST) as HL.
+    destruct (lnl_vals m v) as [[qLi qLc]|].
+    2:{ destruct (m_set_lnl_spread_params mT [] kw) as [m' o]. cbn [snd] in HL. subst o. reflexivity. }
+    rewrite HL. cbn [andthen]. unfold spread_fin. fold m0. fold mT. set (mL := lnl_fin m mT qLi qLc) in *.
+    assert (HSL : St m mL).
+    { unfold St. pose proof (sk_mid_set_lnl mT [] kw) as Hsk. rewrite HL in Hsk. cbn [fst] in Hsk. rewrite Hsk. exact HST. }
+    exact (step_dist m v Hok Hnd Hl mL HSL).
+  Qed.
+End Spec.
+
+(** * The object after a successful full assignment, leaf by leaf *)
+Definition leaf_fin (m : midline) (v : list val) (u : uni) (qT qL : list Qc) : uni :=
+  let u' := u_put_sel L (u_put_sel T u qT) qL in u_with_dists u' (force_ds m v u').
+Definition m_explicit (m : midline) (v : list val) (q : Qc) (qTi qTc qTe : list Qc) (mixo : option Qc) (qLi qLc : list Qc) : midline :=
+  let qLc' := if ml_symL m then qLi else qLc in
+  let qTec := match mixo with Some mix => mixed mix qTi qTc | None => qTe end in
+  {| ml_ext := b_with (ml_ext m) (leaf_fin m v (b_ipsi (ml_ext m)) qTi qLi) (leaf_fin m v (b_contra (ml_ext m)) qTec qLc');
+     ml_noext := b_with (ml_noext m) (leaf_fin m v (b_ipsi (ml_noext m)) qTi qLi) (leaf_fin m v (b_contra (ml_noext m)) qTc qLc');
+     ml_central := option_map (fun c => b_with c (leaf_fin m v (b_ipsi c) qTi qLi) (leaf_fin m v (b_contra c) qTi qLc')) (ml_central m);
+     ml_unknown := option_map (bi_ds m v) (ml_unknown m);
+     ml_mixing := match mixo with Some mix => Some mix | None => ml_mixing m end;
+     ml_midext := q; ml_evo := ml_evo m; ml_symL := ml_symL m |}.
+
+Lemma fin_explicit m v q qTi qTc qTe mixo qLi qLc :
+  dist_fin m v (spread_fin m q (qTi, qTc, qTe, mixo) (qLi, qLc)) = m_explicit m v q qTi qTc qTe mixo qLi qLc.
+Proof.
+  unfold spread_fin, m_explicit, dist_fin, lnl_fin, tumor_fin, with_central_T, leaf_fin, bi_ds.
+  destruct m as [[ei ec sTe sLe] [ni nc sTn sLn] central unknown mixing midext evo symL].
+  destruct central as [[ci cc sTc sLc]|], unknown as [[ki kc sTk sLk]|], mixo as [mix|], symL; reflexivity.
+Qed.
+
+(** * [m_accepts] says exactly when the call succeeds *)
+Lemma is_some_all_unit_app A B : is_some (all_unit (A ++ B)) = is_some (all_unit A) && is_some (all_unit B).
+Proof. rewrite all_unit_app. destruct (all_unit A), (all_unit B); reflexivity. Qed.
+Lemma is_some_all_unit_one x : is_some (all_unit [x]) = is_some (check_unit x).
+Proof. cbn [all_unit]. destruct (check_unit x); reflexivity. Qed.
+
+Definition bd (b : bilateral) := ((u_maxt (b_ipsi b), u_dists (b_ipsi b)), (u_maxt (b_contra b), u_dists (b_contra b))).
+Lemma bis_dists_spread m q tv ls : map bd (m_bis (spread_fin m q tv ls)) = map bd (m_bis m).
+Proof.
+  destruct tv as [[[qTi qTc] qTe] mixo], ls as [qLi qLc].
+  unfold spread_fin, lnl_fin, tumor_fin, with_central_T, m_bis.
+  destruct m as [[ei ec sTe sLe] [ni nc sTn sLn] central unknown mixing midext evo symL].
+  destruct central as [[ci cc sTc sLc]|], unknown as [[ki kc sTk sLk]|], mixo as [mix|], symL; reflexivity.
+Qed.
+Lemma dist_ok_bd m v mk1 mk2 : map bd (m_bis mk1) = map bd (m_bis mk2) -> dist_ok m v mk1 = dist_ok m v mk2.
+Proof.
+  unfold dist_ok. generalize (m_bis mk1) (m_bis mk2). intros l1. induction l1 as [|b1 l1 IH]; intros [|b2 l2] H; cbn [map] in H; try discriminate; [reflexivity|].
+  injection H as Hb Hr. cbn [forallb]. rewrite (IH l2 Hr). f_equal.
+  unfold bd in Hb. injection Hb as H1 H2 H3 H4. unfold bi_ds_ok, leaf_ds. rewrite H1, H2, H3, H4. reflexivity.
+Qed.
+
+Section Bridge.
+  Variables (m : midline) (v : list val).
+  Hypothesis Hok : m_names_ok m = true.
+  Hypothesis Hnd : NoDup (m_names m).
+  Hypothesis Hl : length v = length (m_items m).
+  Notation lv := (LV m v).
+  Let ns := length (m_spread_items m).
+  Let nd := length (u_dist_items (m_ei m)).
+
+  Lemma v_blocks : firstn ns v = map lv (m_spread_keys m) /\ firstn nd (skipn ns v) = vD m v /\ skipn (ns + nd) v = [lv ["midext"; "prob"]].
+  Proof.
+    assert (Hs : length (map lv (m_spread_keys m)) = ns) by (rewrite map_length; apply m_spread_keys_length, Hok).
+    assert (Hd : length (map lv (DK m)) = nd) by (rewrite map_length; unfold DK; apply map_length).
+    rewrite (v_as_map m v Hnd Hl) at 1 2 3. rewrite (m_names_eq m Hok), !map_app. cbn [map].
+    split; [apply firstn_app_len, Hs|]. rewrite (skipn_app_len _ _ ns Hs). split; [apply firstn_app_len, Hd|].
+    rewrite app_assoc. apply skipn_app_len. rewrite app_length. lia.
+  Qed.
+
+  Lemma spread_keys_ok :
+    is_some (all_unit (map lv (m_spread_keys m)))
+    = is_some (tumor_vals m v) && is_some (lnl_vals m v).
+  Proof.
+    unfold m_spread_keys, tumor_vals, lnl_vals, vTi, vTc, vTe, vLi, vLc, cpre, lpre.
+    destruct (ml_mixing m), (ml_symL m);
+      rewrite ?map_app, ?is_some_all_unit_app, ?map_app, ?is_some_all_unit_app, ?is_some_all_unit_one, !map_map; cbn [app];
+      repeat match goal with |- context [all_unit ?l] => destruct (all_unit l) end;
+      try destruct (check_unit (lv ["mixing"])); reflexivity.
+  Qed.
+
+  Lemma forallb_unis (f : uni -> bool) : forallb f (m_unis m) = forallb (fun b => f (b_ipsi b) && f (b_contra b)) (m_bis m).
+  Proof.
+    unfold m_unis. induction (m_bis m) as [|b r IH]; [reflexivity|]. cbn [flat_map forallb app]. rewrite IH, andb_assoc. reflexivity.
+  Qed.
+
+  Lemma m_accepts_eq :
+    m_accepts m v = is_some (check_unit (lv ["midext"; "prob"])) && is_some (tumor_vals m v) && is_some (lnl_vals m v) && dist_ok m v m.
+  Proof.
+    unfold m_accepts. fold ns nd. destruct v_blocks as (H1 & H2 & H3). rewrite H1, H2, H3, spread_keys_ok, is_some_all_unit_one.
+    rewrite forallb_unis. unfold dist_ok, bi_ds_ok, leaf_ds.
+    destruct (check_unit (lv ["midext"; "prob"])), (tumor_vals m v), (lnl_vals m v); reflexivity.
+  Qed.
+End Bridge.
+
+Section Outcome.
+  Variables (m : midline) (v : list val).
+  Hypothesis Hok : m_names_ok m = true.
+  Hypothesis HN : mid_names_nodup_stmt.
+  Hypothesis Hl : length v = length (m_items m).
+  Let Hnd : NoDup (m_names m) := proj2 (HN m Hok).
+
+  Lemma m_set_reject : m_accepts m v = false -> snd (m_set_params m [] (mkw m v)) = None.
+  Proof.
+    intros Hacc. rewrite (m_accepts_eq m v Hok Hnd Hl) in Hacc.
+    pose proof (m_set_full m v Hok HN Hl) as Hs. unfold spread_vals in Hs.
+    destruct (check_unit (LV m v ["midext"; "prob"])) as [q|]; [|exact Hs].
+    destruct (tumor_vals m v) as [tv|]; [|exact Hs]. destruct (lnl_vals m v) as [ls|]; [|exact Hs].
+    cbn [is_some andb] in Hacc. rewrite (dist_ok_bd m v _ m (bis_dists_spread m q tv ls)), Hacc in Hs. exact Hs.
+  Qed.
+  Lemma m_set_accept : m_accepts m v = true ->
+    exists q qTi qTc qTe mixo qLi qLc,
+      m_set_params m [] (mkw m v) = (m_explicit m v q qTi qTc qTe mixo qLi qLc, Some [])
+      /\ tumor_vals m v = Some (qTi, qTc, qTe, mixo) /\ lnl_vals m v = Some (qLi, qLc).
+  Proof.
+    intros Hacc. rewrite (m_accepts_eq m v Hok Hnd Hl) in Hacc.
+    pose proof (m_set_full m v Hok HN Hl) as Hs. unfold spread_vals in Hs.
+    destruct (check_unit (LV m v ["midext"; "prob"])) as [q|]; [|discriminate].
+    destruct (tumor_vals m v) as [[[[qTi qTc] qTe] mixo]|]; [|discriminate]. destruct (lnl_vals m v) as [[qLi qLc]|]; [|discriminate].
+    cbn [is_some andb] in Hacc. rewrite (dist_ok_bd m v _ m (bis_dists_spread m q _ _)), Hacc, fin_explicit in Hs.
+    exists q, qTi, qTc, qTe, mixo, qLi, qLc. repeat split. exact Hs.
+  Qed.
+End Outcome.
